@@ -387,6 +387,10 @@ def c12():
             # the row variant hits the recorded DrainRow finding for idx < rows-1; it is listed under its own name
             add("C12", f"c12_leak_remove_{'row' if is_row else 'col'}_u8_{c}x{r}", f"c12::leak_drain_u8({b(is_row)}, {c}, {r})", 8,
                 "quick" if (c, r) in [(2, 3), (1, 1)] and not is_row else "thorough")
+    for (c, r) in [(2, 3), (1, 1), (3, 2)]:
+        add("C12", f"c12_leak_remove_col_zst_{c}x{r}", f"c12::leak_drain_zst(false, {c}, {r})", 10, "quick" if (c, r) != (3, 2) else "thorough", also=["C05"] if (c, r) == (2, 3) else [])
+    # (the row variant is the recorded DrainRow finding for every element type; pop_row - the last row - is leak-safe)
+    add("C12", "c12_leak_remove_row_zst_2x1", "c12::leak_drain_zst(true, 2, 1)", 10, "quick")
     names = {0: "rows", 1: "rows_mut", 2: "col", 3: "col_mut", 4: "cells", 5: "cells_mut", 6: "view", 7: "view_mut", 8: "into_iter"}
     for what, nm in names.items():
         add("C12", f"c12_leak_{nm}_2x2", f"c12::leak_borrow({what}, 2, 2)", 10, "quick")
@@ -564,6 +568,8 @@ def c18():
         q = "quick" if (c, r) in [(0, 0), (2, 3), (3, 1)] else "thorough"
         add("C18", f"c18_roundtrip_u8_{c}x{r}", f"c18::roundtrip_u8({c}, {r})", 12, q)
         add("C18", f"c18_roundtrip_u32_{c}x{r}", f"c18::roundtrip_u32({c}, {r})", 12, "quick" if (c, r) in [(2, 3), (0, 0)] else "thorough")
+    for (c, r) in [(0, 0), (2, 3), (1, 1), (3, 1)]:
+        add("C18", f"c18_roundtrip_unit_{c}x{r}", f"c18::roundtrip_unit({c}, {r})", 12, "quick" if (c, r) in [(0, 0), (2, 3)] else "thorough")
     wins = {"interior": (1, 1, 3, 3), "full": (0, 0, 3, 3), "empty_edge": (3, 3, 3, 3), "col": (2, 0, 3, 3), "row": (0, 1, 3, 2), "empty_mid": (1, 1, 1, 2)}
     for nm, (sc, sr, ec, er) in wins.items():
         q = "quick" if nm in ("interior", "empty_edge", "col") else "thorough"
@@ -604,6 +610,16 @@ def c19():
         q = "quick" if nm in ("cr", "rd", "empty", "crdd", "ccrd", "crdu") else "thorough"
         doc(nm, 0, 2, 0, 1 if nm in ("crdd", "crdu") else 0, q)
         doc(nm, 0, 0, 0, 2, "thorough")
+    # the same with `null` elements read as TooDee<()> (zero-sized instantiation)
+    def udoc(nm, dimsel, datalen, bad, mode, tier):
+        p, ln = pats[nm]
+        add("C19", f"c19_unitdoc_{nm}_s{dimsel}_n{datalen}_b{bad}_m{mode}", f"c19::document_unit({p}, {ln}, {dimsel}, {datalen}, {bad}, {mode})", 12, tier)
+    for (nm, datalen, mode, q) in [("crd", 0, 0, "quick"), ("crd", 4, 0, "quick"), ("drc", 2, 1, "quick"), ("rcd", 6, 2, "thorough"), ("crdd", 2, 1, "thorough"), ("cr", 2, 0, "thorough")]:
+        udoc(nm, 0, datalen, 0, mode, q)
+    for dimsel in (1, 3, 6):
+        udoc("crd", dimsel, 0, 0, 0, "quick" if dimsel == 3 else "thorough")
+        udoc("crd", dimsel, 2, 0, 0, "thorough")
+    udoc("crd", 0, 2, 3, 0, "thorough")
 
 
 c19()
